@@ -38,6 +38,9 @@ def write_replay(prop, unit, ob, confirmed, detail):
     return path
 
 
+DEP_KINDS = ("escape", "safety", "float-range", "call-pre", "exc-justified")
+
+
 def conclude(prop, tier, seed, results, wall, reg):
     from . import replay as rp
     findings, _fixed = load_known_findings()
@@ -45,8 +48,11 @@ def conclude(prop, tier, seed, results, wall, reg):
     obligations = [(r, o) for r in results for o in r["obligations"]]
     n_ob = len(obligations)
     discharged = [o for _, o in obligations if o["status"] == "discharged"]
-    refuted = [(r, o) for r, o in obligations if o["status"] == "refuted"]
-    undecided_obs = [(r, o) for r, o in obligations if o["status"] == "undecided"]
+    refuted = [(r, o) for r, o in obligations if o["status"] == "refuted" and (not r.get("dependency") or o.get("kind") in DEP_KINDS)]
+    # a dependency's functional postcondition that fails is another property's violation; for this
+    # property it only means the callee contract its proof leans on is not established: undecided
+    dep_broken = [(r, o) for r, o in obligations if o["status"] == "refuted" and r.get("dependency") and o.get("kind") not in DEP_KINDS]
+    undecided_obs = [(r, o) for r, o in obligations if o["status"] == "undecided"] + dep_broken
     undecided_units = [r for r in results if r["status"] == "undecided"]
     by_backend = {}
     solver_s = 0.0
@@ -98,6 +104,9 @@ def conclude(prop, tier, seed, results, wall, reg):
             continue
         b = rp.bounded_standin(reg, r, seed, tier)
         bounded.append(b)
+        if b.get("failing") is not None and r.get("dependency") and "exception escapes" not in str(b["failing"].get("clause")):
+            b["note"] = "a functional clause of a dependency fails natively: reported under the properties that claim this unit, not here"
+            continue
         if b.get("failing") is not None:
             ob = {"name": r["name"] + "/bounded-stand-in", "kind": "bounded", "backend": "native", "reason": "native contract check failed",
                   "model": b["failing"], "seconds": b.get("seconds", 0)}
